@@ -105,21 +105,27 @@ AllEncs   == ObjEncs \cup BytesEncs \cup PathEncs
 IsCa(e)   == e.fmt \in CaFmts
 NoPw(S)   == {e \in S : e.fmt # "priv.enc.pem"}             \* tool paths that have no password parameter
 Certs(S)  == {e \in S : e.fmt \in CertFmts}
-Paths(rot) == CASE rot \in {"cert_block_1", "cert_block_21"} -> {"rkht", "rkht_parse", "rot", "cli", "pfr", "certblock", "certblock_parse", "certblock_cfg", "dc"}
-                [] rot = "srk_table_ahab"    -> {"rot", "cli", "srk", "srk_parse", "srk_cfg", "dc"}
-                [] rot = "srk_table_ahab_v2" -> {"rot", "cli", "srk", "srk_parse", "srk_cfg"}
-                [] rot = "srk_table_hab"     -> {"rot", "cli", "srk", "srk_parse"}
-UsesUsed(path) == path \in {"certblock", "certblock_parse", "certblock_cfg", "dc"}
+\* tool paths.  All of them return THE value, except  rot_table (Rot.export / `nxpcrypto rot export`: the table the value is the
+\* hash of)  and  keyhash (pfr.calc_pub_key_hash: the hash of one key)
+Paths(rot) == CASE rot = "cert_block_1"  -> {"rkht", "rkht_parse", "rot", "cli", "pfr", "certblock", "certblock_parse", "certblock_cfg", "certblock_fuses",
+                                             "dc", "dc_parse", "rot_table", "keyhash"}
+                [] rot = "cert_block_21" -> {"rkht", "rkht_parse", "rot", "cli", "pfr", "certblock", "certblock_parse", "certblock_cfg",
+                                             "dc", "dc_parse", "rot_table", "keyhash"}
+                [] rot = "srk_table_ahab"    -> {"rot", "cli", "srk", "srk_parse", "srk_cfg", "dc", "dc_parse", "rot_table"}
+                [] rot = "srk_table_ahab_v2" -> {"rot", "cli", "srk", "srk_parse", "srk_cfg", "rot_table"}
+                [] rot = "srk_table_hab"     -> {"rot", "cli", "srk", "srk_parse", "srk_fuses", "rot_table"}
+ValuePaths(rot) == Paths(rot) \ {"rot_table", "keyhash"}
+UsesUsed(path) == path \in {"certblock", "certblock_parse", "certblock_cfg", "certblock_fuses", "dc", "dc_parse"}
 \* encodings a tool path takes for key number i (isUsed: the key that signs)
 EncsFor(rot, path, isUsed) ==
   IF rot = "srk_table_hab" THEN                                                     \* HAB takes certificates only
-       CASE path = "rot" -> Certs(AllEncs) [] path = "cli" -> Certs(PathEncs) [] OTHER -> Certs(ObjEncs)
-  ELSE CASE path \in {"rkht", "rkht_parse", "rot"} -> AllEncs
+       CASE path \in {"rot", "rot_table"} -> Certs(AllEncs) [] path = "cli" -> Certs(PathEncs) [] OTHER -> Certs(ObjEncs)
+  ELSE CASE path \in {"rkht", "rkht_parse", "rot", "rot_table"} -> AllEncs
          [] path = "cli" -> PathEncs
-         [] path \in {"dc", "srk_cfg"} -> NoPw(PathEncs)
+         [] path \in {"dc", "dc_parse", "srk_cfg"} -> NoPw(PathEncs)
          [] path = "pfr" -> {Enc("obj", "pub")} \cup PathEncs
-         [] path \in {"srk", "srk_parse"} -> {Enc("obj", "pub")}
-         [] path \in {"certblock", "certblock_parse"} ->
+         [] path \in {"srk", "srk_parse", "keyhash"} -> {Enc("obj", "pub")}
+         [] path \in {"certblock", "certblock_parse", "certblock_fuses"} ->
               IF rot = "cert_block_1" THEN (IF isUsed THEN {Enc("obj", "crt")} ELSE {Enc("obj", "crt"), Enc("obj", "ca")})
               ELSE {Enc("obj", "pub")} \cup NoPw(BytesEncs)
          [] path = "certblock_cfg" ->
@@ -143,9 +149,12 @@ Legal(c) ==
   /\ PasswordOK(c.encs)
   /\ (c.rot \in {"srk_table_ahab", "srk_table_ahab_v2"} => \A i \in 1..4 : IsCa(c.encs[i]) = IsCa(c.encs[1]))   \* one flag for the table
   /\ (c.path = "rkht_parse" /\ c.rot = "cert_block_21" => N(c.keys) >= 2)             \* a one-key table is empty: nothing to parse
-  /\ (c.path = "dc" => \A i \in 1..N(c.keys) : c.keys[i].cls # "rsa3072")        \* DAT protocol versions: RSA-2048 / RSA-4096 only
+  /\ (c.path \in {"dc", "dc_parse"} => \A i \in 1..N(c.keys) : c.keys[i].cls # "rsa3072")   \* DAT protocol versions: RSA-2048 / RSA-4096 only
+  /\ (c.path = "keyhash" => N(c.keys) = 1)
 Cas(c) == [i \in 1..N(c.keys) |-> IsCa(c.encs[i])]
-DocCase(c) == Doc(c.rot, c.keys, Cas(c))
+DocCase(c) == CASE c.path = "rot_table" -> DocTable(c.rot, c.keys, Cas(c))
+                [] c.path = "keyhash"   -> Rkh(HashOf(c.keys[1].cls), c.keys[1])
+                [] OTHER                -> Doc(c.rot, c.keys, Cas(c))
 \* an observed value conforms: it IS the evaluated term (PFR: the ROTKH field = the value, zero padded to the field)
 ValueOK(c, got, want, fieldLen) ==
   /\ Len(want) = DocCase(c).len
@@ -276,6 +285,5 @@ ParsedIsBuilt == act.a \in {"Parse21", "Parse1"} =>
                    /\ obj.keys = out.keys /\ obj.used = out.used /\ obj.ud = out.ud /\ obj.cons = out.cons
                    /\ obj.img = out.img /\ obj.build = out.build /\ obj.isk = out.isk
 \* reading by path sees the file content of the moment
-ReadIsCurrent == act.a = "ReadByPath" => act.term = Doc(act.rot, [i \in 1..Len(act.files) |-> fs[act.files[i]].k],
-                                                      [i \in 1..Len(act.files) |-> IsCa(fs[act.files[i]].enc)])
+ReadIsCurrent == act.a = "ReadByPath" => act.term = DocCase(FileCase(act.rot, act.files, act.path, act.used))
 =============================================================================
